@@ -143,6 +143,7 @@ void wfx(int eid, int idx) {
   if (xk == X_OFF) return;
   g_log.clauses.push_back(Clause{C_FX, eid, idx, S->depth});
   if (xk == X_THROW) throw side_exc{eid, idx};
+  if (xk == X_TRACER) { if (static_cast<int>(S->tracers.size()) < MAXTR) real::push_tracer(0); return; }
   if (xk == X_NEST && S->depth < 3) {
     int o = sp.fxa[idx][0], f = sp.fxa[idx][1], a = sp.fxa[idx][2];
     if (real::mock_alive(o)) {
